@@ -245,6 +245,9 @@ def run(cs, tier, run_index):
 
     def chk(inv, cond, **kw):
         res.checks_workload += 1
+        nums = [v for v in kw.values() if isinstance(v, float)]
+        if len(nums) == 2 and "_le_" in inv:
+            res.margin(inv, (nums[0] - nums[1]) / TAU)
         if not cond:
             res.violate(inv, **kw, **meta)
 
